@@ -86,6 +86,8 @@ Fixpoint count_str (x : string) (l : list string) : nat :=
 Definition is_item_kind (k : kind) : bool :=
   match k with KStruct | KEnum | KService | KNewType | KConst | KMod => true | _ => false end.
 
+Definition is_const_kind (k : kind) : bool := match k with KConst => true | _ => false end.
+
 Section Conv.
   Variable conv : kind -> string -> string.
 
@@ -115,7 +117,11 @@ Section Conv.
     | None => if negb cc || collides cc scope x then s_orig x else conv (s_kind x) (s_orig x)
     end.
 
-  Definition emitted (cc : bool) (scope : list sib) (x : sib) : string := display (rust_name cc scope x).
+  (* what is pasted into the emitted text.  Everything formats the Symbol through Display -- except
+     Codegen::write_const (codegen/mod.rs 438-444): `self.def_lit(&name, ..)` takes `name: &str`, the Symbol is
+     deref'ed and the RAW name is written after `pub const` / `pub static` (finding F-14n) *)
+  Definition emitted (cc : bool) (scope : list sib) (x : sib) : string :=
+    if is_const_kind (s_kind x) then rust_name cc scope x else display (rust_name cc scope x).
 End Conv.
 
 (* ---- ASCII lower case (str::to_ascii_lowercase) ------------------------------------------------ *)
